@@ -30,7 +30,8 @@ MC_Leads == {
 
 MC_Bodies == {"x", "y", "x*y", "x/y", "y/x", "2"}
 \* every accepted two-factor shape: name*name, name/name, number*name, number/name, name/number, name*number
-MC_BodiesAll == {"x", "y", "x*y", "y*x", "x/y", "y/x", "2", "2*x", "6/y", "x/2", "x*2"}
+MC_BodiesAll == {"x", "y", "x*y", "y*x", "x/y", "y/x", "2", "2*x", "6/y", "x/2", "x*2",
+                 "1234567", "12345678", "100000.5"}     \* pure numbers with seven and more significant digits
 MC_JoinElems == {"x", "+x", "-x", " y ", "-x*y", "+a*(b+c)", "-(x-y)", "+ 2"}
 
 MC_SignsAll == AllSignForms0
